@@ -1,6 +1,7 @@
 package props
 
 import (
+	"runtime"
 	"context"
 	"fmt"
 	"sync"
@@ -41,6 +42,12 @@ type c20Phase struct {
 	// them breaks and other traffic fails over first; only then does the batch get to see
 	// the errors of its calls on the old connection.
 	LateBatch bool `json:"late_batch,omitempty"`
+	// DuringDial: two not yet used neighbouring regions are moved to a server the client has no
+	// connection to; both are used at once while that server's dial is held; meanwhile the second one is
+	// merged with its (unknown) successor and a request for the successor's range makes the client learn
+	// the merged region (the second region is dead now, its establisher still waits for the dial); then
+	// the dial completes.
+	DuringDial bool `json:"during_dial,omitempty"`
 }
 
 type c20Case struct {
@@ -135,6 +142,16 @@ func c20RunInBubble(c c20Case) (out Outcome) {
 				return *o
 			}
 			anyFault = true
+		}
+		if ph.DuringDial {
+			did, o := c20DuringDial(cl, client, c.Layout.Table, addrs, usedRegions, pi)
+			if o != nil {
+				return *o
+			}
+			if did {
+				layoutChanged = true
+				out.Labels = append(out.Labels, "region_died_while_its_dial_was_held")
+			}
 		}
 		addr := addrs[((ph.FaultServer%len(addrs))+len(addrs))%len(addrs)]
 		switch ph.Fault {
@@ -255,6 +272,7 @@ func c20Gen(t *rapid.T) c20Case {
 		ph.Fault = rapid.SampledFrom([]string{"", "", "", "reset", "silent", "fatal"}).Draw(t, "fault")
 		ph.FaultServer = rapid.IntRange(0, 3).Draw(t, "faultserver")
 		ph.LateBatch = rapid.IntRange(0, 3).Draw(t, "latebatch") == 0
+		ph.DuringDial = rapid.IntRange(0, 3).Draw(t, "duringdial") == 0
 		ph.Change = rapid.SampledFrom([]string{"", "", "split", "merge", "move", "transient"}).Draw(t, "change")
 		if ph.Change == "transient" {
 			ph.ChangeClass = rapid.SampledFrom(c04TransientClasses).Draw(t, "class")
@@ -280,6 +298,104 @@ func TestC20_OneConnection(t *testing.T) {
 			"each address is dialled exactly once; all requests succeed. Non-trivial = >= 2 regions of one server first "+
 			"used concurrently, or a failure followed by reuse; distinct by case hash")
 	Drive(t, rec, true, c20Gen, c20Run)
+}
+
+// c20DuringDial plays the schedule described at c20Phase.DuringDial. No virtual time may pass and no
+// synctest.Wait may be used while the dial is held: establishers queue on the region client's dial-once
+// lock, which is not a durable block.
+func c20DuringDial(cl *sim.Cluster, client gohbase.Client, table string, addrs []string, used map[string]bool, pi int) (bool, *Outcome) {
+	if len(addrs) < 2 {
+		return false, nil
+	}
+	_, dials, _ := cl.Snapshot()
+	dialled := map[string]bool{}
+	for _, d := range dials {
+		dialled[d.Addr] = true
+	}
+	target := ""
+	for _, a := range addrs[1:] { // (not the server of hbase:meta)
+		if !dialled[a] {
+			target = a
+			break
+		}
+	}
+	regs := cl.TableRegions(table)
+	i := -1
+	for k := 0; k+2 < len(regs); k++ {
+		if !used[string(regs[k].Name)] && !used[string(regs[k+1].Name)] && !used[string(regs[k+2].Name)] {
+			i = k
+			break
+		}
+	}
+	if target == "" || i < 0 {
+		return false, nil
+	}
+	ra, rb, rc := regs[i], regs[i+1], regs[i+2]
+	cl.Move(ra, target)
+	cl.Move(rb, target)
+	for _, r := range []*sim.Region{ra, rb, rc} {
+		used[string(r.Name)] = true
+	}
+	cl.SetServer(target, func(s *sim.ServerState) { s.DialHold = true })
+	mk := func(x string) string { return fmt.Sprintf("mkdd%d%s", pi, x) }
+	var wg sync.WaitGroup
+	errs := make([]error, 3)
+	use := func(k int, key []byte, m string) {
+		wg.Add(1)
+		go func() {
+			defer wg.Done()
+			err, cerr := doOp(client, context.Background(), table, opSpec{Kind: "get", Key: key, Marker: m})
+			if err == nil {
+				err = cerr
+			}
+			errs[k] = err
+		}()
+	}
+	keyC := append([]byte(nil), rc.Start...)
+	use(0, ra.Start, mk("a"))
+	use(1, rb.Start, mk("b"))
+	select {
+	case <-cl.DialHeld:
+	case <-time.After(time.Minute):
+		cl.SetServer(target, func(s *sim.ServerState) { s.DialHold = false })
+		wg.Wait()
+		return false, nil
+	}
+	// (let the second establisher reach the held dial too, without the clock)
+	for k := 0; k < 3000; k++ {
+		runtime.Gosched()
+	}
+	cl.Lock()
+	before := cl.MetaScans
+	cl.Unlock()
+	cl.Merge(rb, rc, uint64(5000+10*(50+pi)-5), target) // (region ids grow with time: below the id of this phase's own change)
+	use(2, keyC, mk("c"))
+	for k := 0; k < 2000000; k++ {
+		cl.Lock()
+		n := cl.MetaScans
+		cl.Unlock()
+		if n > before {
+			break
+		}
+		runtime.Gosched()
+	}
+	for k := 0; k < 5000; k++ {
+		runtime.Gosched()
+	}
+	cl.SetServer(target, func(s *sim.ServerState) { s.DialHold = false })
+	done := make(chan struct{})
+	go func() { wg.Wait(); close(done) }()
+	if !waitOrHorizon(done, 10*time.Minute) {
+		o := viol("request-stuck", "during-dial phase %d: requests still blocked 10 virtual minutes after the dial completed", pi)
+		return true, &o
+	}
+	for k, err := range errs {
+		if err != nil {
+			o := viol("request-failed", "during-dial phase %d: request %d: %v", pi, k, err)
+			return true, &o
+		}
+	}
+	return true, nil
 }
 
 // c20LateBatch plays the late-error schedule; returns a violation or nil.
